@@ -14,7 +14,7 @@ from ..faults import Faults, make_callback
 from ..harness import Check
 from ..snap import abs_value
 
-UNIVERSES = ["str", "int", "tuple_keyfn", "kitem", "kitem_typed", "str_typed", "tuple_typed", "mod_keyfn", "repr_keyfn"]
+UNIVERSES = ["str", "int", "tuple_keyfn", "kitem", "kitem_typed", "str_typed", "tuple_typed", "mod_keyfn", "repr_keyfn", "selfkey_typed"]
 
 
 def make_kitem_class():
@@ -51,6 +51,10 @@ class Env:
             self.ctor = K[self.KItem, str]
         elif universe == "str_typed":
             self.ctor = K[str, str]
+        elif universe == "selfkey_typed":
+            import typing
+            # items are their own keys, and the item type is wider than the key type: "a" is a fine item and a wrong key
+            self.ctor = K[typing.Union[int, str], int]
         elif universe == "tuple_typed":
             self.ctor = K[tuple, str]
         else:
@@ -103,6 +107,8 @@ class Env:
             return type(item).__name__ == "KItem" and isinstance(item.__dict__.get("k"), str)
         if u == "str_typed":
             return isinstance(item, str)
+        if u == "selfkey_typed":
+            return isinstance(item, int)
         if u == "tuple_typed":
             return isinstance(item, tuple) and len(item) >= 1 and isinstance(item[0], str)
         return True
@@ -131,6 +137,8 @@ class Env:
             return src.choice([0, 1, 2, 3, 7])
         if u == "mod_keyfn":
             return src.choice([0, 1, 2, 3, 4, 6])
+        if u == "selfkey_typed":
+            return src.choice([0, 1, 2, 3, 7])
         if u == "repr_keyfn":  # falsy and truthy items, identified by an explicit key function
             # (1, 1.0 and True are equal to each other and have three different keys)
             # (for lists only: against a built-in set operand equal items are one element, whatever their keys)
@@ -139,13 +147,15 @@ class Env:
         if u in ("tuple_keyfn", "tuple_typed"):
             return ["tuple", [src.choice(keys), src.choice([0, 1])]]
         if u.startswith("kitem"):
-            return ["kitem", {"k": src.choice(keys), "v": src.choice([0, 1])}]
+            return ["kitem", {"k": src.choice(keys + [""]), "v": src.choice([0, 1])}]  # (a falsy key value is a key)
         raise HarnessError(u)
 
     def gen_bad_item(self, src):
         u = self.universe
         if u == "str_typed":
             return src.choice([5, None, ["tuple", ["a", 1]]])
+        if u == "selfkey_typed":
+            return src.choice(["a", "zz", ["float", "1.5"]])
         if u == "tuple_typed":
             return src.choice([["tuple", [5, 1]], "zz", 7])
         if u == "kitem_typed":
@@ -181,7 +191,7 @@ class C13(Check):
     LEVEL = "exploration"
     RUNS = {"quick": 3000, "thorough": 60000}
     N_OPS = {"quick": (6, 22), "thorough": (8, 40)}
-    RULE = ("seeded histories over KeyedList for 9 item universes (self-keyed str / int, tuples with an explicit key "
+    RULE = ("seeded histories over KeyedList for 10 item universes (self-keyed str / int, tuples with an explicit key "
             "function, keyed spec items; untyped and KeyedList[T, K]); each operation runs against a plain-list model and, "
             "for universes with a key function, is re-executed with an InjectedFault at every key-function invocation "
             "index. evaluations = operation executions; distinct_nontrivial = distinct (universe, operation, container "
@@ -553,7 +563,14 @@ class C13(Check):
         ctx.case.update({"universe": universe, "init": init, "ops": []})
         m = [env.build(x) for x in init]
         faults.begin(None)
-        l = env.new(list(m))
+        try:
+            l = env.new(list(m))
+        except BaseException as e:  # noqa: BLE001 (incl. the library's BaseTypeError): conforming, uniquely keyed items
+            if type(e).__name__ in ("KeyboardInterrupt", "SystemExit"):
+                raise
+            ctx.violate({"invariant": "construction_from_conforming_items_succeeds", "universe": universe, "exc": type(e).__name__},
+                        {"msg": strip_addr(str(e))[:200]})
+            return
         mm = self.observe_mismatch(env, l, m)
         if mm:
             ctx.violate({"invariant": "reads_agree_with_model", "op": "construct", "universe": universe}, {"mismatch": mm})
